@@ -59,6 +59,18 @@ Theorem C15_scorer_consistent : forall (G St E : Type) (maker : St -> (G + E) * 
 Proof. exact @scorer_consistent. Qed.
 Print Assumptions C15_scorer_consistent.
 
+(* Ord's provided methods agree with the order: for scores max / min are the numerical ones, for errors they are
+   swapped (the better error is the smaller number); in either order max is an upper and min a lower bound and
+   both return one of their arguments *)
+Theorem C15_min_max : forall a b,
+  (omax score_cmp a b = Z.max a b /\ omin score_cmp a b = Z.min a b) /\
+  (omax error_cmp a b = Z.min a b /\ omin error_cmp a b = Z.max a b) /\
+  (forall c, c = score_cmp \/ c = error_cmp ->
+     c (omax c a b) a <> Lt /\ c (omax c a b) b <> Lt /\ c (omin c a b) a <> Gt /\ c (omin c a b) b <> Gt /\
+     (omax c a b = a \/ omax c a b = b) /\ (omin c a b = a \/ omin c a b = b)).
+Proof. exact (fun a b => conj (omax_omin_score a b) (conj (omax_omin_error a b) (fun c H => omax_bound c a b H))). Qed.
+Print Assumptions C15_min_max.
+
 Example C15_nonvacuous :
   score_cmp 3 5 = Lt /\ error_cmp 3 5 = Gt /\ total (results_from [5; -8; 0; 6]) = 3 /\
   results_cmp error_cmp (results_from [1; 2]) (results_from [3]) = Eq.
